@@ -5,6 +5,7 @@ package main
 
 import (
 	"bytes"
+	"regexp"
 	"context"
 	"fmt"
 	"os"
@@ -39,6 +40,9 @@ var allSolvers = []solverSpec{
 	{"z3-4.8.12", func(f string, t int) []string {
 		return []string{"/usr/bin/z3", fmt.Sprintf("-T:%d", t), f}
 	}},
+	{"z3-new-5.1.0/ematching", func(f string, t int) []string {
+		return []string{"z3-new", fmt.Sprintf("-T:%d", t), "smt.mbqi=false", f}
+	}},
 }
 
 var solverSem = make(chan struct{}, 16)
@@ -60,12 +64,63 @@ func parseVerdict(out string) string {
 	return "error"
 }
 
+var constArrRe = regexp.MustCompile(`\(\(as const (\(Array \(_ BitVec 64\) [A-Za-z][A-Za-z0-9_]*\))\) ([A-Za-z][A-Za-z0-9_!.@]*)\)`)
+
+// cvc5Compat rewrites constant arrays whose element is not a literal value (e.g. the nil interface) into named
+// arrays with a defining axiom, which cvc5 accepts.
+func cvc5Compat(q string) string {
+	if !constArrRe.MatchString(q) {
+		return q
+	}
+	decls := map[string]string{}
+	var order []string
+	out := constArrRe.ReplaceAllStringFunc(q, func(m string) string {
+		sm := constArrRe.FindStringSubmatch(m)
+		if sm[2] == "true" || sm[2] == "false" {
+			return m
+		}
+		name := fmt.Sprintf("zc_%x", hashStr(sm[1]+sm[2]))
+		if _, ok := decls[name]; !ok {
+			decls[name] = fmt.Sprintf("(declare-const %s %s)\n(assert (forall ((zq (_ BitVec 64))) (= (select %s zq) %s)))\n", name, sm[1], name, sm[2])
+			order = append(order, name)
+		}
+		return name
+	})
+	// declarations go right before the first assert/define that follows all sort declarations: put them after
+	// the last "(declare-" line that precedes the first use
+	first := len(out)
+	for _, n := range order {
+		if k := strings.Index(out, n); k >= 0 && k < first {
+			first = k
+		}
+	}
+	lineStart := strings.LastIndex(out[:first], "\n") + 1
+	var sb strings.Builder
+	sb.WriteString(out[:lineStart])
+	for _, n := range order {
+		sb.WriteString(decls[n])
+	}
+	sb.WriteString(out[lineStart:])
+	return sb.String()
+}
+
 // runOne runs one solver on a file.
 func runOne(ctx context.Context, sp solverSpec, file string, timeoutS int) (string, string, float64) {
 	solverSem <- struct{}{}
 	defer func() { <-solverSem }()
 	if ctx.Err() != nil {
 		return "cancelled", "", 0
+	}
+	if strings.HasPrefix(sp.name, "cvc5") {
+		if b, err := os.ReadFile(file); err == nil {
+			if q2 := cvc5Compat(string(b)); q2 != string(b) {
+				cf := file + ".cvc5.smt2"
+				if os.WriteFile(cf, []byte(q2), 0o644) == nil {
+					defer os.Remove(cf)
+					file = cf
+				}
+			}
+		}
 	}
 	args := sp.args(file, timeoutS)
 	cctx, cancel := context.WithTimeout(ctx, time.Duration(timeoutS+2)*time.Second)
@@ -109,13 +164,17 @@ func solve(workdir, name, query string, timeoutS int, needTwo bool) SolverResult
 		wg.Add(1)
 		go func(si int, sp solverSpec) {
 			defer wg.Done()
-			if si >= 2 && !needTwo {
-				// the third solver joins the race only if the first two have not answered quickly
+			// staged racing: z3-new starts at once, cvc5 shortly after, the others only for hard queries
+			delay := []time.Duration{0, 600 * time.Millisecond, 2500 * time.Millisecond, 2500 * time.Millisecond}[si]
+			if needTwo && si == 1 {
+				delay = 0
+			}
+			if delay > 0 {
 				select {
 				case <-ctx.Done():
 					ch <- res{sp.name, "cancelled", "", 0}
 					return
-				case <-time.After(1500 * time.Millisecond):
+				case <-time.After(delay):
 				}
 			}
 			v, out, t := runOne(ctx, sp, file, timeoutS)
